@@ -27,7 +27,8 @@ from sx import Sym, Str
 PROP = "C17"
 PROP_FILE = "C17_Manifest"
 THEOREMS = ["c17_slice_val_record_keys", "c17_slice_val_entity_kept", "c17_slice_entity_attrs_subset",
-            "c17_slice_entity_no_tags", "c17_walk_app", "c17_adequate_getattr_covered_partial"]
+            "c17_slice_entity_no_tags", "c17_walk_app", "c17_adequate_getattr_covered_partial",
+            "c17_adequate_sound_partial", "c17_response_sound_partial"]
 
 MANIFEST = {
     "text": "Gallina transcription of the manifest data, of slicing by a manifest (loader.rs load_entities + slicing.rs slice_entity/slice_val + ancestors phase) and an independent path-coverage validator of the Rust analysis output; slice lemmas proved for all tries and values; tied to /repo by differential execution (model slice vs EntityManifest::slice_entities entity by entity; validator on every Rust-computed manifest) and by the implementation-level oracle (authorization response on sliced vs full store).",
@@ -432,7 +433,16 @@ def shrink(harness, ps, q, es, full, sl):
 
 
 def run_sets(rep, sets, npairs, r, harness, driver, stats):
-    mres = fw.run_rust(harness, [dict(base_cmd(ps), cmd="manifest") for ps in sets])
+    # one harness command per policy set: the manifest is computed once, then every pair is sliced / authorized
+    _c0 = _cpu()
+    for ps in sets:
+        ps["pairs"] = pairs_for(r, ps, npairs)
+    _gen = round(_cpu() - _c0, 1)
+    _c0 = _cpu()
+    mres = fw.run_rust(harness, [dict(base_cmd(ps), cmd="manifest_slice_many",
+                                      cases=[{"request": cedar.request_json(q), "entities": cedar.entities_json(es)}
+                                             for q, es in ps["pairs"]]) for ps in sets])
+    stats["cpu"] = {"gen_pairs": _gen, "rust_slice_many": round(_cpu() - _c0, 1)}
     ok_sets = []
     adeq_cmds, adeq_owner = [], []
     for ps, mr in zip(sets, mres):
@@ -448,6 +458,7 @@ def run_sets(rep, sets, npairs, r, harness, driver, stats):
             continue
         ps["manifest"] = mr["manifest"]
         ps["typed"] = mr["typed"]
+        ps["results"] = mr["results"]
         ok_sets.append(ps)
         stats["manifests"] += 1
         acc = {"nodes": 0, "is_ancestor": 0, "ancestor_tries": 0}
@@ -464,16 +475,23 @@ def run_sets(rep, sets, npairs, r, harness, driver, stats):
             for e in pol["envs"]:
                 if e["result"] == "success":
                     key = (repr(e["env"]["principal"]), repr(e["env"]["action"]), repr(e["env"]["resource"]))
-                    by_rt.setdefault(key, []).append(e["typed"])
+                    sl = [[Sym(k.lstrip("?")), texpr._uid(u)] for k, u in pol["slots"]]
+                    by_rt.setdefault(key, []).append([sl, texpr.texpr_sx(e["typed"])])
         for rt, tr in mr["manifest"]["perAction"]:
             key = (repr([list(map(ord, c)) for c in _name(rt["principal"])]),
                    repr({"type": [list(map(ord, c)) for c in _name(rt["action"]["ty"])], "id": list(map(ord, rt["action"]["eid"]))}),
                    repr([list(map(ord, c)) for c in _name(rt["resource"])]))
             typed = by_rt.get(key, [])
             if typed:
-                adeq_cmds.append([Sym("manifest_adequate"), rtrie_sx(tr), [texpr.texpr_sx(t) for t in typed]])
+                adeq_cmds.append([Sym("manifest_adequate"), rtrie_sx(tr), typed])
                 adeq_owner.append((ps, rt))
+    fres = fw.run_model(driver, [[Sym("manifest_frag")] + c[1:] for c in adeq_cmds])
+    for f in fres:
+        for k in (f if isinstance(f, list) else []):
+            stats["fragment"][str(k)] = stats["fragment"].get(str(k), 0) + 1
+    _c1 = _cpu()
     ares = fw.run_model(driver, adeq_cmds)
+    stats["cpu"]["model_adequate"] = round(_cpu() - _c1, 1)
     for (ps, rt), a, cmd in zip(adeq_owner, ares, adeq_cmds):
         stats["validator_runs"] += 1
         if isinstance(a, list) and a and a[0] == "adequate":
@@ -482,15 +500,16 @@ def run_sets(rep, sets, npairs, r, harness, driver, stats):
             ps.setdefault("validator_reject", []).append({"request_type": rt, "missing": repr(a)[:600]})
             stats["validator_reject"] += 1
     # slices
-    cases = []
+    cases, rres = [], []
     for ps in ok_sets:
-        for q, es in pairs_for(r, ps, npairs):
+        for (q, es), rr in zip(ps["pairs"], ps["results"]):
             cases.append((ps, q, es))
-    rres = fw.run_rust(harness, [dict(base_cmd(ps), cmd="manifest_slice", request=cedar.request_json(q),
-                                      entities=cedar.entities_json(es)) for ps, q, es in cases])
+            rres.append(dict(rr, manifest=ps["manifest"]))
     mcmds = [[Sym("manifest_slice"), manifest_sx(ps["manifest"]), cedar.request_sx(q), cedar.entities_sx(es)]
              for ps, q, es in cases]
+    _c1 = _cpu()
     mout = fw.run_model(driver, mcmds)
+    stats["cpu"]["model_slice"] = round(_cpu() - _c1, 1)
     failing_sets = set()
     oracle_failures = {}
     for (ps, q, es), rr, mo in zip(cases, rres, mout):
@@ -563,33 +582,52 @@ def run_sets(rep, sets, npairs, r, harness, driver, stats):
             confirmed = id(ps) in failing_sets
             stats["validator_reject_confirmed" if confirmed else "validator_reject_unconfirmed"] += 1
             if not confirmed:
+                slot_in = any(SLOT_IN.search(t["text"]) for t in ps["templates"])
                 rep.violation({"property": PROP, "kind": "the model's manifest validator rejects a manifest computed by the implementation and no store was found where the missing path matters",
                                "model_function": "Manifest.adequate", "rust_entry_point": "compute_entity_manifest",
                                "missing": ps["validator_reject"], "case": describe(ps), "manifest": ps["manifest"],
-                               "theorems_losing_transfer": ["c17_adequate_getattr_covered_partial"]}, no_failing_input=True)
+                               "theorems_losing_transfer": ["c17_adequate_sound_partial"]}, no_failing_input=True,
+                              key="c17-oracle-template-slot-in" if slot_in else None)
     return cases, mcmds, mout
 
 
+def _cpu():
+    import os
+    t = os.times()
+    return t.user + t.system + t.children_user + t.children_system
+
+
 def run(rep, tier, seed):
+    phases = {}
+    c0 = _cpu()
     ob, dis, details, failures = fw.check_props(PROP_FILE, THEOREMS)
+    phases["proofs"] = round(_cpu() - c0, 1)
+    c0 = _cpu()
     harness = fw.build_harness()
     driver = fw.build_model_driver()
+    phases["builds"] = round(_cpu() - c0, 1)
+    c0 = _cpu()
     r = random.Random(seed)
     quick = tier == "quick"
-    npairs = 20 if quick else 40
+    npairs = 10 if quick else 40
     stats = {"manifests": 0, "refused": {}, "trie": {}, "trie_depth": {}, "validator_runs": 0, "validator_accept": 0,
              "validator_reject": 0, "validator_reject_confirmed": 0, "validator_reject_unconfirmed": 0, "pairs": 0,
              "slice_fail": {}, "decisions": {}, "with_reasons": 0, "with_errors": 0, "error_classes": {},
              "entities_full": 0, "entities_slice": 0, "attrs_full": 0, "attrs_slice": 0, "ancestors_slice": 0,
-             "slice_matters": 0, "oracle_fail": 0, "oracle_fail_classes": {}, "corr_diff": 0, "corr_same": 0, "distinct": set()}
-    sets = h_policy_sets(r, len(H_POOL) + (30 if quick else 600))
+             "fragment": {}, "slice_matters": 0, "oracle_fail": 0, "oracle_fail_classes": {}, "corr_diff": 0, "corr_same": 0, "distinct": set()}
+    sets = h_policy_sets(r, len(H_POOL) + (8 if quick else 900))
     # refused stream (hand-written)
     for scope, body, _ in H_REFUSED:
         sets.append({"schema": H_SCHEMA, "templates": [], "policies": [{"id": "p0", "text": "permit(%s) when { %s };" % (scope, body)}],
                      "stream": "H"})
-    sets += t_policy_sets(r, 10 if quick else 120, 8 if quick else 12)
+    sets += t_policy_sets(r, 6 if quick else 150, 5 if quick else 12)
+    phases["generate"] = round(_cpu() - c0, 1)
+    c0 = _cpu()
     cases, mcmds, mout = run_sets(rep, sets, npairs, r, harness, driver, stats)
-    nx = fw.coq_crosscheck(mcmds[:24], mout[:24], PROP)
+    phases["run_sets"] = round(_cpu() - c0, 1)
+    c0 = _cpu()
+    nx = fw.coq_crosscheck(mcmds[:16], mout[:16], PROP)
+    phases["vm_compute_crosscheck"] = round(_cpu() - c0, 1)
     for f in failures:
         rep.violation({"property": PROP, "kind": "proof obligation no longer checks", "detail": f}, no_failing_input=True)
     distinct = stats.pop("distinct")
@@ -605,7 +643,7 @@ def run(rep, tier, seed):
         "rule": "one evaluation = one (policy set, request, store) triple: manifest computed by compute_entity_manifest, store sliced by slice_entities, authorization on both stores compared (oracle) and the slice compared entity-by-entity with the extracted Coq slice (correspondence); distinct by hash of (policies, store, request); slice_matters counts the triples where the slice dropped an entity or an attribute",
         "traces_validated_against_impl": stats["corr_same"] + stats["corr_diff"],
         "vm_compute_crosscheck_cases": nx,
-        "policy_sets": len(sets), "pairs_per_policy_set": npairs,
+        "policy_sets": len(sets), "pairs_per_policy_set": npairs, "cpu_seconds_by_phase": phases,
         "stats": stats, "samples": [sample],
     }
     rep.assumptions = [
